@@ -3,20 +3,37 @@
    (cfg rust_dsymbols_verif: one `derive` event with the parent table, the edge from -g-> to, and
    the result) is the transition function of the machine of LowIndex.tla: the result is the
    deductive closure of the parent with the new edge, and None exactly when that closure is
-   contradictory (or the edge is not free).  The closure is unique, so no lawful implementation
-   can return anything else.  Also: the parent of every call is itself a closed table (it is a
-   node of the tree). *)
+   contradictory (or the edge is not free).  For presentations whose relators all have at least two
+   letters the closure is unique and the code's queue reaches it (lemma QueueIsClosure), so no lawful
+   implementation can return anything else, and the parent of every call is itself a closed table.
+   With a relator of length one the closure may lawfully be lazy; see DeriveOK. *)
 EXTENDS LowIndex, Json, IOUtils
 Rec == ndJsonDeserialize(IOEnv.TRACE)
 VARIABLES l, X
 Init == l = 1 /\ X = {}
 AsTable(k, rows) == [gens |-> k, img |-> rows]
+\* no fully defined relator instance of the table closes on two different rows
+NoContradiction(T, Xs) == Contradictions(T, Xs) = {}
 DeriveOK(e) ==
    LET T == AsTable(e.gens, e.table)
        T1 == IF e.to = NRows(T) THEN AddRow(T) ELSE T
        want == Derive(T1, X, e.from, e.to, e.g)
-   IN /\ (T # Root(e.gens) => ClosedTable(T, X))      \* (the root is not closed when a relator has length 1)
-      /\ IF want = Fail THEN ~e.some ELSE e.some /\ AsTable(e.gens, e.out) = want
+   IN IF ~HasUnitRelator(X)
+      THEN \* every relator has at least two letters: the queue of derived_table computes THE deductive closure
+           \* (LowIndex!QueueIsClosure), which is unique - no lawful implementation can return anything else
+           /\ (T # Root(e.gens) => ClosedTable(T, X))
+           /\ IF want = Fail THEN ~e.some ELSE e.some /\ AsTable(e.gens, e.out) = want
+      ELSE \* a relator of length one: a fresh row's loop may lawfully be deduced later (lazy closure).  Statement level:
+           \* None only if the closure is contradictory; a returned table contains the new edge, lies inside the closure
+           \* and has no contradiction of its own.  Equality with the code's queue discipline is conformance level.
+           LET wantQ == DeriveQ(T1, X, e.from, e.to, e.g)
+               out == AsTable(e.gens, e.out)
+           IN /\ (~e.some => want = Fail)
+              /\ (e.some => /\ Entry(T1, e.from, e.g) = Undef /\ Entry(T1, e.to, -e.g) = Undef
+                            /\ ExtendsT(out, Join(T1, e.from, e.to, e.g)) /\ NoContradiction(out, X)
+                            /\ (want # Fail => ExtendsT(want, out)))
+              /\ (IF (IF wantQ = Fail THEN ~e.some ELSE e.some /\ out = wantQ) THEN TRUE
+                  ELSE PrintT(<<"NOTE", "derived_table differs from LowIndex!DeriveQ", l>>))
 Next == /\ l <= Len(Rec)
         /\ IF Rec[l].ev = "header" THEN X' = ExpandedRels(Rec[l].rels)
            ELSE (Rec[l].ev = "derive" /\ DeriveOK(Rec[l])) = TRUE /\ UNCHANGED X
